@@ -39,7 +39,9 @@ def main():
         rev = "-R" if meta.get("apply_reversed") else ""
         r = sh(f"git -C {REPO} apply {rev} {d}/patch.diff")
         if r.returncode != 0:
-            results[sid] = {"property": prop, "status": "patch does not apply", "detail": r.stdout[-300:]}
+            results[sid] = {"property": prop, "status": "patch does not apply", "detail": r.stdout[-300:], "caught": False}
+            print(sid, "PATCH DOES NOT APPLY", flush=True)
+            json.dump(results, open(SEEDED + f"/RESULTS{SUFFIX}.json", "w"), indent=1)
             continue
         t = time.time()
         try:
